@@ -8,7 +8,7 @@ cat = json.load(open(os.path.join(HERE, 'mutants.json')))
 names = [a for a in sys.argv[1:] if not a.startswith('--')]
 tier = 'quick'
 if '--tier' in sys.argv: tier = sys.argv[sys.argv.index('--tier') + 1]
-subprocess.run(['rsync', '-a', '--delete', '--exclude', 'target', '--exclude', '.git', '--exclude', '.verif-work', '/repo/', SCR + '/'], check=True)
+subprocess.run(['rsync', '-rlp', '--checksum', '--delete', '--exclude', 'target', '--exclude', '.git', '--exclude', '.verif-work', '/repo/', SCR + '/'], check=True)
 results = []
 for m in cat:
     if names and m['name'] not in names: continue
